@@ -115,6 +115,15 @@ class C14(PropBase):
                 rng.shuffle(order)
                 steps.append({"op": "carriers", "t": {"k": "list", "a": {"k": "str"}}, "s": s, "order": order, "mod": rng.choice(mods)})
                 continue
+            if rng.random() < 0.04:
+                # text whose byte length is a "magic" length of a binary form of the target (16 bytes: a packed UUID;
+                # 4/8: packed numbers): it is text all the same, in every carrier
+                tt = rng.choice([{"k": "uuid"}, {"k": "union", "sp": "optional", "a": [{"k": "uuid"}, {"k": "none"}]}, {"k": "int"}, {"k": "float"}, {"k": "dt"}])
+                s16 = rng.choice(["1234567890123456", "abcdefghijklmnop", "\u00e9" * 8, "not-a-uuid-value", "12345678", "1234", "\u00e9\u00e9", "2020-01-01T00:00"])
+                order = list(hist.CARRIERS)
+                rng.shuffle(order)
+                steps.append({"op": "carriers", "t": tt, "s": s16, "order": order, "mod": rng.choice(mods)})
+                continue
             kind = core.weighted(rng, [(6, "carriers"), (3, "text_vs_value"), (4, "load"), (2 if "buffer_reuse" in sw else 0, "reuse"),
                                        (2 if "mutate_loaded" in sw else 0, "load_mutate")])
             mod = rng.choice(mods)
